@@ -6,11 +6,16 @@
    direction).  [dup] copies the metrics only, so an instance starts idle with
    an empty queue whatever state the template is in, also when the template is
    the live channel of another link that is transmitting at that moment.
-   Channel c has its own record [chs c], its own share [orcs c] of the jitter
-   samples (the samples its transmissions draw) and its own part of the log;
-   the event set [mq] is shared, events carry the channel they belong to.
-   The handlers are those of Channel.Model, run on the channel's view of the
-   state with a channel-tagged event encoding.  All links have the same metrics.
+   An instance does not exist ([chs c = None]) until a handler first uses it;
+   it is then created by [dup] from the current state of channel 0, the live
+   template of run-time connects (links connected before the run are created
+   the same way: nothing can be offered to a channel before it exists).
+   Channel c has its own metrics [mts c] and transmission-time function
+   [txs c], its own record, its own share [orcs c] of the jitter samples (the
+   samples its transmissions draw) and its own part of the log; the event set
+   [mq] is shared, events carry the channel they belong to.  The handlers are
+   those of Channel.Model, run on the channel's view of the state with a
+   channel-tagged event encoding.
 
    A burst is one handler invocation of one of the two modules; it may send
    into several channels.  No proofs in this file (see Project.v). *)
@@ -45,15 +50,22 @@ Definition lift (c : N) (e : cev) : mev :=
 (* the encoding channel c's handlers add their events with *)
 Definition enc_at (c : N) (e : cev) : N := enc_mev (lift c e).
 
-Record mst := { chs : N -> chan; mq : sp; orcs : N -> list N; mlog : list (N * item) }.
+Record mst := { chs : N -> option chan; mq : sp; orcs : N -> list N; mlog : list (N * item) }.
 
 Definition upd {A} (f : N -> A) (c : N) (v : A) : N -> A := fun x => if x =? c then v else f x.
 
+(* the instance of channel c: created on first use from the live template, channel 0 *)
+Definition inst_of (s : mst) (c : N) : chan :=
+  match chs s c with
+  | Some x => x
+  | None => dup (match chs s 0 with Some t => t | None => idle_chan end)
+  end.
+
 (* channel c's view of the state, and writing a handler's result back *)
-Definition view (c : N) (s : mst) : st := {| ch := chs s c; q := mq s; orc := orcs s c; log := [] |}.
+Definition view (c : N) (s : mst) : st := {| ch := inst_of s c; q := mq s; orc := orcs s c; log := [] |}.
 
 Definition back (c : N) (s : mst) (s' : st) : mst :=
-  {| chs := upd (chs s) c (ch s'); mq := q s'; orcs := upd (orcs s) c (orc s');
+  {| chs := upd (chs s) c (Some (ch s')); mq := q s'; orcs := upd (orcs s) c (orc s');
      mlog := map (pair c) (log s') ++ mlog s |}.
 
 Definition on (c : N) (f : st -> st) (s : mst) : mst := back c s (f (view c s)).
@@ -66,18 +78,18 @@ Definition own_instance (c : N) : N := c.
 
 Section MLoop.
 Variable inst : N -> N.
-Variable tx : N -> N.
-Variable mt : metrics.
+Variable txs : N -> N -> N.          (* per channel: length -> transmission time *)
+Variable mts : N -> metrics.         (* per channel: latency, jitter, drop policy *)
 Variable mbursts : list (N * list (N * N * N)).   (* (time, [(channel, msg id, length)]) *)
 
-Definition munbusy (s : mst) (c : N) : mst := on c (unbusy current (enc_at c) tx mt) s.
+Definition munbusy (s : mst) (c : N) : mst := on c (unbusy current (enc_at c) (txs c) (mts c)) s.
 
 Definition mexit (s : mst) (c m : N) : mst := on c (fun v => handle_exit v m) s.
 
 Definition moffer (s : mst) (o : N * N * N) : mst :=
   let '(c0, m, len) := o in
   let c := inst (c0 mod NCH) mod NCH in
-  on c (fun v => offer current (enc_at c) tx mt v (m, len)) s.
+  on c (fun v => offer current (enc_at c) (txs c) (mts c) v (m, len)) s.
 
 Definition mwake (s : mst) (k : N) : mst :=
   match nth_error mbursts (N.to_nat k) with
@@ -105,10 +117,9 @@ Fixpoint msteps (n : nat) (s : mst) : mst :=
   | S n' => match mstep s with Some s' => msteps n' s' | None => s end
   end.
 
-(* at_sim_start: one wake-up per burst, in the order of the list; every
-   instance is a dup of the template, whatever state [template c] is in *)
-Definition minit (template : N -> chan) (oracles : N -> list N) : mst :=
-  {| chs := fun c => dup (template c);
+(* at_sim_start: one wake-up per burst, in the order of the list; no instance exists yet *)
+Definition minit (oracles : N -> list N) : mst :=
+  {| chs := fun _ => None;
      mq := sched_wakes (enc_at 0) sp_new 0 (map (fun b => (fst b, @nil (N * N))) mbursts);
      orcs := oracles; mlog := [] |}.
 
@@ -163,26 +174,58 @@ Definition enc_mitem (ci : N * item) : list N :=
   | ISample t b f pk bts => [3; c; t; b2n b; f; pk; bts]
   end.
 
-(* script: seed brk br lat jit pol lim  nl mode{nl}  ntx (len tx)*  norc (c j)*  (t c len)*
-   nl links = 2 nl channels (2i: forward, 2i+1: reverse direction of link i); seed, bitrate and the
-   link modes (how and when each link is connected) only concern the implementation.
-   A trailing 9 reports events left pending (fuel exhausted). *)
+(* one link of the script: its metrics and how it is connected (0: before the run with its own
+   Channel::new, 1: before the run with a clone of one shared template handle, 2: at run time with
+   the live forward channel of link 0 as template) *)
+Record linkrec := { l_mt : metrics; l_mode : N }.
+
+Definition no_link : linkrec := {| l_mt := {| m_lat := 0; m_jit := 0; m_pol := PDrop |}; l_mode := 0 |}.
+
+(* link i is described by 7 numbers: brk br lat jit pol lim mode (brk, br: the bitrate, for the implementation) *)
+Fixpoint links_of (k : nat) (l : list N) : list linkrec :=
+  match k with
+  | O => []
+  | S k' =>
+      {| l_mt := {| m_lat := nth 2 l 0; m_jit := nth 3 l 0; m_pol := dec_policy (nth 4 l 0) (nth 5 l 0) |};
+         l_mode := nth 6 l 0 |} :: links_of k' (skipn 7 l)
+  end.
+
+(* the metrics a link's two instances get: those of its template (Channel::dup copies them) *)
+Definition eff_metrics (ls : list linkrec) (i : nat) : metrics :=
+  let me := nth i ls no_link in
+  if l_mode me =? 1 then
+    match find (fun l => l_mode l =? 1) ls with Some l => l_mt l | None => l_mt me end
+  else if (l_mode me =? 2) && negb (Nat.eqb i 0) then l_mt (nth 0 ls no_link)
+  else l_mt me.
+
+Fixpoint tx_tbl3 (tbl : list (N * N * N)) (i len : N) : N :=
+  match tbl with
+  | [] => 0
+  | (i', l, t) :: r => if (i' =? i) && (l =? len) then t else tx_tbl3 r i len
+  end.
+
+(* script: seed nl (brk br lat jit pol lim mode){nl}  ntx (link len tx)*  norc (c j)*  (t c len)*
+   nl links = 2 nl channels (2i: forward, 2i+1: reverse direction of link i); the seed, the bitrates
+   and when a link is connected only concern the implementation; the tx table gives the transmission
+   time per link and message length.  A trailing 9 would report events left pending (fuel exhausted;
+   excluded by MTerm.multi_run_completes). *)
 Definition run (input : list N) : list N :=
   match input with
-  | _ :: _ :: _ :: lat :: jit :: pol :: lim :: nl :: r =>
+  | _ :: nl :: r =>
       let nl' := N.max 1 (N.min nl 3) in
-      let '(_, r0) := take_n (N.to_nat nl') r in
+      let ls := links_of (N.to_nat nl') r in
+      let r0 := skipn (7 * N.to_nat nl') r in
       let '(tb, r1) := take_lp r0 in
       let '(ob, r2) := take_lp r1 in
-      let tbl := pairs tb in
+      let tbl := triples tb in
       let k := 2 * nl' in
       let offs := map (fun o => (fst (fst o), snd (fst o) mod k, N.max hdr_len (snd o))) (triples r2) in
-      let mt := {| m_lat := lat; m_jit := jit; m_pol := dec_policy pol lim |} in
       let bs := sched_order (mgroup offs 0) in
-      let s0 := msteps own_instance (tx_tbl tbl) mt bs (mfuel offs) (minit bs (fun _ => idle_chan) (orc_of (pairs ob))) in
+      let s0 := msteps own_instance (fun c => tx_tbl3 tbl (c / 2)) (fun c => eff_metrics ls (N.to_nat (c / 2))) bs
+                  (mfuel offs) (minit bs (orc_of (pairs ob))) in
       (* at_sim_end: every channel is sampled once more *)
       let s := fold_left (fun s c => on c sample s) (map N.of_nat (seq 0 (N.to_nat k))) s0 in
-      [7; N.of_nat (length tbl)] ++ flat_map (fun p => [fst p; snd p]) tbl
+      [7; N.of_nat (length tbl)] ++ flat_map (fun p => [fst (fst p); snd (fst p); snd p]) tbl
         ++ flat_map enc_mitem (rev (mlog s))
         ++ (match s_zero (mq s) ++ s_rest (mq s) with [] => [] | _ => [9] end)
   | _ => [8]
